@@ -217,6 +217,9 @@ def records_for(pid, tier, results):
             elif errs and info and info.get("hints_skipped"):
                 rec["status"] = "undecided"
                 rec["detail"] = [f"{info['hints_skipped']} proof hint(s) lost their anchor in the edited source, so the failed proof decides nothing (contract needs review): " + errs[0]["detail"]]
+            elif errs and info and info.get("loops_without_invariant"):
+                rec["status"] = "undecided"
+                rec["detail"] = [f"the function now contains {info['loops_without_invariant']} loop(s) for which the contract holds no invariant, so the failed proof decides nothing (contract needs review): " + errs[0]["detail"]]
             elif errs:
                 if all(e.get("rlimit") for e in errs):
                     rec["status"] = "undecided"; rec["detail"] = ["rlimit exceeded: " + e["detail"] for e in errs]
